@@ -115,6 +115,9 @@ pub(crate) enum State {
 #[cfg_attr(feature = "defmt-03", derive(defmt::Format))]
 pub enum Error {
     NotJoined,
+    /// The payload, together with the MAC answers queued for this uplink, does not fit in one
+    /// frame (or in the radio buffer).
+    PayloadTooLong,
     #[cfg(feature = "multicast")]
     Multicast(multicast::Error),
 }
@@ -195,6 +198,10 @@ impl Mac {
     ) -> Result<(radio::TxConfig, RxWindows, FcntUp)> {
         let fcnt = match &mut self.state {
             State::Joined(session) => {
+                // 255 octets is the longest frame a LoRa radio takes
+                if session.uplink_len(send_data) > N.min(255) {
+                    return Err(Error::PayloadTooLong);
+                }
                 Ok(session.prepare_buffer::<N>(send_data, buf, &self.configuration, &self.region))
             }
             State::Otaa(_) => Err(Error::NotJoined),
